@@ -33,36 +33,43 @@ theorem ecEdit_inv (f : Nat) (hcmd : CmdOK f) (ed ed' : Ed) (cmd arg : Bytes) (r
       · split at h
         · exact hcmd _ _ _ _ (edInv_bufsSwitch _ e3) h
         · cases h; exact edInv_bufsSwitch _ e3
-      · generalize hE4 : (if (!List.isEmpty path || ed3.cur.isNone) = true then
-            (ed3.bufsOpen path).snd.bufsSwitch (ed3.bufsOpen path).fst else ed3) = ed4 at h
-        have e4 : EdInv ed4 := by
-          rw [← hE4]; split
-          · exact edInv_bufsSwitch _ (edInv_bufsOpen _ e3)
-          · exact e3
-        split at h
+      · split at h
         · cases h
-        · rename_i b hb
+        · rename_i ed3g hg2
+          cases h
+          exact guard_inv e3 hg2
+        · rename_i ed3g hg2
+          have e3g : EdInv ed3g := guard_inv e3 hg2
+          generalize hE4 : (if (!List.isEmpty path || ed3g.cur.isNone) = true then
+              (ed3g.bufsOpen path).snd.bufsSwitch (ed3g.bufsOpen path).fst else ed3g) = ed4 at h
+          have e4 : EdInv ed4 := by
+            rw [← hE4]; split
+            · exact edInv_bufsSwitch _ (edInv_bufsOpen _ e3g)
+            · exact e3g
           split at h
           · cases h
-          · rename_i ed5 hrd
-            have e5 : EdInv ed5 := by
-              split at hrd
-              · split at hrd
-                · cases hrd; exact e4
-                · split at hrd
-                  · cases hrd
-                  · rename_i lb1 hr
-                    cases hrd
-                    exact (edInv_setLb (lb := lb1) e4 ((edInv_cur e4 hb).rd hr)).to (by rfl)
-              · cases hrd; exact e4
+          · rename_i b hb
             split at h
             · cases h
-            · rename_i b5 hb5
-              let b6 : Buf := { b5 with lb := (modified (savedCore b5.lb (!path.isEmpty))).snd, mtime := ed5.mtimeOf b5.path }
-              have e6 : EdInv (ed5.setCur b6) := edInv_setCur e5 ((edInv_cur e5 hb5).savedBump _)
+            · rename_i ed5 hrd
+              have e5 : EdInv ed5 := by
+                split at hrd
+                · split at hrd
+                  · cases hrd; exact e4
+                  · split at hrd
+                    · cases hrd
+                    · rename_i lb1 hr
+                      cases hrd
+                      exact (edInv_setLb (lb := lb1) e4 ((edInv_cur e4 hb).rd hr)).to (by rfl)
+                · cases hrd; exact e4
               split at h
-              · exact hcmd _ _ _ _ (e6.to (by rfl)) h
-              · cases h; exact e6.to (by rfl)
+              · cases h
+              · rename_i b5 hb5
+                let b6 : Buf := { b5 with lb := (modified (savedCore b5.lb (!path.isEmpty))).snd, mtime := ed5.mtimeOf b5.path }
+                have e6 : EdInv (ed5.setCur b6) := edInv_setCur e5 ((edInv_cur e5 hb5).savedBump _)
+                split at h
+                · exact hcmd _ _ _ _ (e6.to (by rfl)) h
+                · cases h; exact e6.to (by rfl)
 
 /-- the dispatcher with fuel `f` keeps the invariant -/
 def RunOK (f : Nat) : Prop := ∀ ed h loc cmd arg txt r ed', EdInv ed →
@@ -341,36 +348,47 @@ theorem ecEdit_closed0 (f : Nat) (ed ed' : Ed) (cmd arg : Bytes) (r : Int) (hi :
       · split at h
         · exact closed0_exCommand (edInv_bufsSwitch _ e3) h
         · cases h; exact (edStrong_bufsSwitch _ e3).closed0
-      · generalize hE4 : (if (!List.isEmpty path || ed3.cur.isNone) = true then
-            (ed3.bufsOpen path).snd.bufsSwitch (ed3.bufsOpen path).fst else ed3) = ed4 at h
-        have e4 : EdInv ed4 := by
-          rw [← hE4]; split
-          · exact edInv_bufsSwitch _ (edInv_bufsOpen _ e3)
-          · exact e3
+      · have c3 : Closed0 ed3 := by
+          rw [← hE3]; split
+          · exact (edStrong_bufsSwitch _ e2).closed0
+          · exact c1.to (Props.C15.pathExpand_bufs hp)
         split at h
         · cases h
-        · rename_i b hb
+        · rename_i ed3g hg2
+          cases h
+          exact closed0_guard c3 hg2
+        · rename_i ed3g hg2
+          have e3g : EdInv ed3g := guard_inv e3 hg2
+          generalize hE4 : (if (!List.isEmpty path || ed3g.cur.isNone) = true then
+              (ed3g.bufsOpen path).snd.bufsSwitch (ed3g.bufsOpen path).fst else ed3g) = ed4 at h
+          have e4 : EdInv ed4 := by
+            rw [← hE4]; split
+            · exact edInv_bufsSwitch _ (edInv_bufsOpen _ e3g)
+            · exact e3g
           split at h
           · cases h
-          · rename_i ed5 hrd
-            have e5 : EdInv ed5 := by
-              split at hrd
-              · split at hrd
-                · cases hrd; exact e4
-                · split at hrd
-                  · cases hrd
-                  · rename_i lb1 hr
-                    cases hrd
-                    exact (edInv_setLb (lb := lb1) e4 ((edInv_cur e4 hb).rd hr)).to (by rfl)
-              · cases hrd; exact e4
+          · rename_i b hb
             split at h
             · cases h
-            · rename_i b5 hb5
-              let b6 : Buf := { b5 with lb := (modified (savedCore b5.lb (!path.isEmpty))).snd, mtime := ed5.mtimeOf b5.path }
-              have e6 : EdInv (ed5.setCur b6) := edInv_setCur e5 ((edInv_cur e5 hb5).savedBump _)
-              have c6 : Closed0 (ed5.setCur b6) := closed0_setCur (closed_savedBump (edInv_cur e5 hb5) _)
+            · rename_i ed5 hrd
+              have e5 : EdInv ed5 := by
+                split at hrd
+                · split at hrd
+                  · cases hrd; exact e4
+                  · split at hrd
+                    · cases hrd
+                    · rename_i lb1 hr
+                      cases hrd
+                      exact (edInv_setLb (lb := lb1) e4 ((edInv_cur e4 hb).rd hr)).to (by rfl)
+                · cases hrd; exact e4
               split at h
-              · exact closed0_exCommand (e6.to (by rfl)) h
-              · cases h; exact c6.to (by rfl)
+              · cases h
+              · rename_i b5 hb5
+                let b6 : Buf := { b5 with lb := (modified (savedCore b5.lb (!path.isEmpty))).snd, mtime := ed5.mtimeOf b5.path }
+                have e6 : EdInv (ed5.setCur b6) := edInv_setCur e5 ((edInv_cur e5 hb5).savedBump _)
+                have c6 : Closed0 (ed5.setCur b6) := closed0_setCur (closed_savedBump (edInv_cur e5 hb5) _)
+                split at h
+                · exact closed0_exCommand (e6.to (by rfl)) h
+                · cases h; exact c6.to (by rfl)
 
 end Neatvi.Lemmas.C02b
